@@ -11,6 +11,14 @@ def run(ctx):
     exe = vlib.build(ctx)
     # (M) the design: every mix of outcomes over a small registry, every filter of it
     vlib.tlc_mc(ctx, 'MC_Run', 'MC_Run' if ctx.quick else 'MC_Run_big', workers=8)
+    if not ctx.quick:
+        # symbolic (Apalache): the loop invariant of Run.tla is inductive for ANY registry of at most 6 distinct lints in any order and
+        # every assignment of outcomes; RunInd is a typed restatement whose steps TLC shows to be steps of Run.tla (MC_RunInd)
+        vlib.tlc_mc(ctx, 'MC_RunInd', 'MC_RunInd', workers=4)
+        vlib.apalache(ctx, 'RunInd_apalache', 'Init', 'IndInv', 0)
+        vlib.apalache(ctx, 'RunInd_apalache', 'IndInit', 'IndInv', 1)
+        vlib.apalache(ctx, 'RunInd_apalache', 'IndInit', 'ReturnedOK', 0)
+        vlib.apalache(ctx, 'RunInd_apalache_bad', 'IndInitCore', 'IndInvCore', 1, expect_error=True)
     # (G) model -> code: every terminal state replayed with mock lints on the real entry points
     rec, out = vlib.tlc_mc(ctx, 'MC_Run_export', 'MC_Run_export', workers=8)
     exp = ctx.path('export.out')
